@@ -505,8 +505,10 @@ func (b Builder) PyUint64(uintVal Expr) (ret Expr) {
 
 // PyStr returns a py-style string constant expression.
 func (b Builder) PyStr(v string) Expr {
-	fn := b.Pkg.pyFunc("PyUnicode_FromString", b.Prog.tyPyUnicodeFromString())
-	return b.Call(fn, b.CStr(v))
+	// pass the length: the literal may contain NUL (CStr/PyUnicode_FromString would cut it there)
+	fn := b.Pkg.pyFunc("PyUnicode_FromStringAndSize", b.Prog.tyPyUnicodeFromStringAndSize())
+	data := Expr{b.Pkg.createGlobalStr(v), b.Prog.CStr()}
+	return b.Call(fn, data, b.Prog.IntVal(uint64(len(v)), b.Prog.Int()))
 }
 
 // PyStrExpr(str string) *Object
